@@ -404,7 +404,7 @@ func (p *InlineParser) parse(source []byte, container *Block) []*Inline {
 					plainStart = pos
 				case ' ':
 					end, ok := parseHardLineBreakSpace(source[pos:state.spanEnd()])
-					if ok && !state.isLastSpan() {
+					if ok {
 						state.addToRoot(&Inline{
 							kind: TextKind,
 							span: Span{
@@ -412,15 +412,18 @@ func (p *InlineParser) parse(source []byte, container *Block) []*Inline {
 								End:   pos,
 							},
 						})
-						state.addToRoot(&Inline{
-							kind: HardLineBreakKind,
-							span: Span{
-								Start: pos,
-								End:   pos + end,
-							},
-						})
-						// Leading spaces at the beginning of the next line are ignored.
-						state.ignoreNextIndent = true
+						if !state.isLastSpan() {
+							state.addToRoot(&Inline{
+								kind: HardLineBreakKind,
+								span: Span{
+									Start: pos,
+									End:   pos + end,
+								},
+							})
+							// Leading spaces at the beginning of the next line are ignored.
+							state.ignoreNextIndent = true
+						}
+						// (At the end of the block, the spaces are not part of the text.)
 						plainStart = pos + end
 					}
 					pos += end
@@ -533,11 +536,12 @@ func (p *InlineParser) parse(source []byte, container *Block) []*Inline {
 					plainStart = pos
 				case '\n':
 					// Hard line breaks already filtered out by other branches.
+					// Spaces at the end of the line are not part of the text.
 					state.addToRoot(&Inline{
 						kind: TextKind,
 						span: Span{
 							Start: plainStart,
-							End:   pos,
+							End:   trimSpaceTabEnd(source, plainStart, pos),
 						},
 					})
 					if !state.isLastSpan() {
@@ -553,11 +557,12 @@ func (p *InlineParser) parse(source []byte, container *Block) []*Inline {
 					plainStart = pos
 				case '\r':
 					// Hard line breaks already filtered out by other branches.
+					// Spaces at the end of the line are not part of the text.
 					state.addToRoot(&Inline{
 						kind: TextKind,
 						span: Span{
 							Start: plainStart,
-							End:   pos,
+							End:   trimSpaceTabEnd(source, plainStart, pos),
 						},
 					})
 					if pos+1 < state.spanEnd() && state.source[pos+1] == '\n' {
@@ -589,11 +594,16 @@ func (p *InlineParser) parse(source []byte, container *Block) []*Inline {
 					pos++
 				}
 			}
+			textEnd := state.spanEnd()
+			if state.isLastSpan() {
+				// Also at the end of a block that does not end in a line ending.
+				textEnd = trimSpaceTabEnd(source, plainStart, textEnd)
+			}
 			state.addToRoot(&Inline{
 				kind: TextKind,
 				span: Span{
 					Start: plainStart,
-					End:   state.spanEnd(),
+					End:   textEnd,
 				},
 			})
 		default:
@@ -603,6 +613,15 @@ func (p *InlineParser) parse(source []byte, container *Block) []*Inline {
 	}
 	p.processEmphasis(state, 0)
 	return dummy.children
+}
+
+// trimSpaceTabEnd returns the end of source[start:end]
+// after removing trailing spaces and tabs.
+func trimSpaceTabEnd(source []byte, start, end int) int {
+	for end > start && (source[end-1] == ' ' || source[end-1] == '\t') {
+		end--
+	}
+	return end
 }
 
 func (p *InlineParser) parseBackslash(state *inlineState, start int) (end int) {
